@@ -50,7 +50,11 @@ fn gen_heads(rng: &mut Rng, uni: &Universe) -> Vec<([u8; 32], u64)> {
         }
     }
     if rng.chance(1, 3) {
-        v.push(([0x42; 32], T0 + rng.below(7)));
+        // an author we hold nothing of: news whatever its timestamp, zero included
+        v.push(([0x42; 32], if rng.chance(1, 3) { 0 } else { T0 + rng.below(7) }));
+    }
+    if rng.chance(1, 8) {
+        if let Some(h) = v.first_mut() { h.1 = 0; }
     }
     v.sort();
     v
@@ -64,7 +68,7 @@ pub fn gen_history(pid: &str, rng: &mut Rng, uni: &Universe, persistent: bool, s
     // most histories start with some documents in place
     for (i, d) in uni.docs.iter().enumerate() {
         if rng.chance(3, 4) {
-            let write = pid != "C07" || rng.chance(1, 2);
+            let write = (pid != "C07" && pid != "C15") || rng.chance(1, 2);
             h.push(SOp::Import { ns: d.0, secret: if write { Some(d.1) } else { None } });
             let _ = i;
         }
@@ -167,8 +171,11 @@ pub fn gen_history(pid: &str, rng: &mut Rng, uni: &Universe, persistent: bool, s
                 40..=69 => h.push(SOp::GetPolicy { ns: pick_id(rng) }),
                 70..=76 => h.push(SOp::Remove { ns: pick_id(rng) }),
                 77..=86 => {
-                    let id = pick_id(rng);
-                    h.push(SOp::Import { ns: id, secret: uni.secret_of(&id) });
+                    // (re-)import, also of a document held read-only so far: an upgrade must keep its settings
+                    let id = if rng.chance(1, 2) { ns } else { pick_id(rng) };
+                    h.push(SOp::Import { ns: id, secret: if rng.chance(3, 4) { uni.secret_of(&id) } else { None } });
+                    if rng.chance(1, 2) { h.push(SOp::GetPolicy { ns: id }); }
+                    stats.inc("import_in_policy_history");
                 }
                 87..=93 if persistent => h.push(SOp::Reopen),
                 _ => h.push(gen_entry_op(rng, uni, doc, stats)),
@@ -290,6 +297,28 @@ fn gen_history18(rng: &mut Rng, uni: &Universe, stats: &mut Stats) -> (Vec<SOp>,
     (h, dl)
 }
 
+fn gen_history18_large(rng: &mut Rng, uni: &Universe, stats: &mut Stats) -> (Vec<SOp>, usize) {
+    let mut h = Vec::new();
+    let (ns, secret) = uni.docs[0];
+    h.push(SOp::Import { ns, secret: Some(secret) });
+    let nsec = iroh_docs::NamespaceSecret::from_bytes(&secret);
+    let n_authors = 1030 + rng.below(80) as usize;
+    for _ in 0..n_authors {
+        let a = iroh_docs::Author::from_bytes(&rng.bytes32());
+        h.push(SOp::RawPut { e: signed_raw(&nsec, &a, b"b", HASH_A, 1, T0 + 1) });
+        h.push(SOp::RawPut { e: signed_raw(&nsec, &a, b"a", HASH_B, 2, T0 + 2) });
+    }
+    stats.inc("large_store_histories");
+    stats.add("large_store_authors", n_authors as u64);
+    // the dump is the heads alone (one operation)
+    h.push(SOp::Heads { ns });
+    h.push(SOp::WipeReopen { latest: true, bykey: rng.chance(1, 2) });
+    h.push(SOp::Heads { ns });
+    h.push(SOp::Reopen);
+    h.push(SOp::Heads { ns });
+    (h, 1)
+}
+
 pub fn run(pid: &str, seed: u64, n: usize, out: &Path, _thorough: bool) -> anyhow::Result<()> {
     let code: u64 = pid[1..].parse()?;
     let mut rng = Rng::new(seed ^ (0x5700 + code));
@@ -303,7 +332,15 @@ pub fn run(pid: &str, seed: u64, n: usize, out: &Path, _thorough: bool) -> anyho
         let uni = Universe::new(seed.wrapping_add((i % 4) as u64), 2 + (i % 2), 1 + rng.below(3) as usize);
         let persistent = pid == "C18" || rng.chance(1, 3);
         let mut dump_len = 0usize;
-        let ops = if pid == "C18" {
+        let ops = if pid == "C18" && _thorough && (i == 7 || i == 1507) {
+            // a large store: more than a thousand (document, author) pairs, two entries each with the newer
+            // one under the smaller key, then the head table is deleted and rebuilt (a rebuild that works in
+            // batches, or keeps per-author state in something of bounded size, shows only at this volume);
+            // evaluating the model on it takes minutes, so it is part of the thorough tier only (two histories)
+            let (h, dl) = gen_history18_large(&mut rng, &uni, &mut stats);
+            dump_len = dl;
+            h
+        } else if pid == "C18" {
             let (h, dl) = gen_history18(&mut rng, &uni, &mut stats);
             dump_len = dl;
             h
